@@ -144,6 +144,13 @@ def check(ctx):
         pos = ctx.rng.choice(["gz", "log+gz", "gz+sl.1000.100000", "pr.1+gz+pr.2"])
         sess.append(rwgen.session_episode(ctx.rng, pos.replace("gz", "gz.%d.%d.text%%2F%%7Capplication%%2Fjson" % (ctx.rng.choice([-1, 1, 5, 9]), ctx.rng.choice([0, 10, 100]))),
                                           ae=ctx.rng.choice(["gzip", "gzip", "-"])))
+    # ... and one instance that has carried a response beyond the buffering cap before
+    for chain in ("gz.5.10.text%2F", "log+gz.1.0.text%2F"):
+        big = ["sh:Content-Type:text%2Fplain", "wh:200"] + ["w:%d:%d" % (4 << 20, 3 + k) for k in range(3)] + ["w:70000:9"]
+        rests = [rwgen.line("X", method, "gzip", "-", 0, "cl", ops).split(" ", 2)[2] for method, ops in (
+            ("GET", big), ("GET", ["sh:Content-Type:text%2Fplain", "wh:404", "w:600:4"]), ("GET", ["sh:Content-Type:text%2Fplain", "wh:410"]),
+            ("GET", ["sh:Content-Type:text%2Fplain", "wh:200", "w:900:5"]))]
+        sess.append(["# session-batch", "rws " + chain] + ["rw @ " + r for r in rests] + ["rws -"] + ["rw %s %s" % (chain, r) for r in rests])
     d.check(sess, oracle=lambda e, o: rwgen.session_oracle(e, o) or [], label="gzip-session")
     ctx.cov["session_episodes"] = len(sess)
     comp = ident = 0
